@@ -724,12 +724,12 @@ def explore(res, root, enc, depth, deadline):
             case = {'root': root, 'enc': enc, 'hist': run.hist}
             if r['status'] == 'unsupported':
                 res.unsupported += 1
-                res.outcome('not-judged:%s:%s' % (r.get('why', 'numpy-reports-no-implementation'), run.hist[-1][0]))
+                res.outcome('not-judged:%s:%s' % (r.get('why', 'numpy-reports-no-implementation'), run.hist[-1][0] if run.hist else 'root'))
                 continue
             if r['status'] == 'transition-failed':
                 for kind, f, exp, obs, exc, ob in r['fails']:
                     _record(res, kind, dict(case, obs=ob), f, exp, obs, exc)
-                res.outcome('pruned:%s:%s' % (r['fails'][0][0], run.hist[-1][0]))
+                res.outcome('pruned:%s:%s' % (r['fails'][0][0], run.hist[-1][0] if run.hist else 'root'))
                 continue
             st = r['state']
             key = (st.key(), r['sig'])
